@@ -330,6 +330,7 @@ func (w *TxWorld) runTx(t *Task, rs *ReqSpec) {
 		var b []byte
 		b, t.Err = w.tp.Dereference(ctx, us[0])
 		t.Result = string(b)
+		t.Held = b // the caller keeps what it was given; it is looked at again when the run is over
 	}
 	t.Handled = true
 	res := "ok"
